@@ -98,7 +98,8 @@ Lemma run_pushes : forall l s,
     st_ret s' = None /\
     (forall x, st_reg s 0 4 <= x -> st_mem s' x = st_mem s x) /\
     (forall k r, nth_error (rev l) k = Some r ->
-                 holds (st_mem s') (st_reg s' 0 4 + ws * Z.of_nat k) ws (trunc ws (st_reg s 0 r))).
+                 holds (st_mem s') (st_reg s' 0 4 + ws * Z.of_nat k) ws (trunc ws (st_reg s 0 r))) /\
+    (forall x, x < st_reg s' 0 4 -> st_mem s' x = st_mem s x).
 Proof.
   pose proof ws_pos as Hws.
   induction l as [|x l IH]; intros s Hret Hne.
@@ -107,7 +108,7 @@ Proof.
     set (s1 := set_mem _ _).
     assert (Hret1 : st_ret s1 = None) by (cbn; auto).
     assert (Hne1 : forall r, In r l -> r <> 4) by (intros; apply Hne; right; auto).
-    destruct (IH s1 Hret1 Hne1) as [s' [Hrun [Hsp [Hregs [Hr [Hmem Hslots]]]]]].
+    destruct (IH s1 Hret1 Hne1) as [s' [Hrun [Hsp [Hregs [Hr [Hmem [Hslots Hlow]]]]]]].
     assert (Hsp1 : st_reg s1 0 4 = st_reg s 0 4 - ws) by (cbn; reflexivity).
     exists s'. split; [exact Hrun|]. splits.
     + rewrite Hsp, Hsp1. cbn [length]. lia.
@@ -122,6 +123,7 @@ Proof.
       * rewrite rev_length in Hk. subst k. rewrite Hsp, Hsp1.
         replace (st_reg s 0 4 - ws - ws * Z.of_nat (length l) + ws * Z.of_nat (length l)) with (st_reg s 0 4 - ws) by lia.
         eapply holds_ext; [|apply holds_store_same]. intros y Hy. rewrite Hmem by (rewrite Hsp1; lia). cbn. reflexivity.
+    + intros y Hy. rewrite Hlow by exact Hy. cbn. apply store_other. rewrite Hsp, Hsp1 in Hy. left. nia.
 Qed.
 
 (* popping into the registers of l (distinct, none of them sp) *)
